@@ -50,6 +50,10 @@ pub struct EngineCore {
     pub held: Vec<(u16, Chain, Response)>,
     /// complete immediately in take order (false: the scenario completes explicitly, any order)
     pub complete_in_order: bool,
+    /// if set, only chains of this queue are held back when `complete_in_order` is false
+    pub hold_only: Option<u16>,
+    /// held chains complete by themselves, in random order, whenever the device runs
+    pub auto_ooo: bool,
 }
 
 pub struct Engine {
@@ -95,7 +99,7 @@ impl Engine {
             let readable = with_world(|w| w.chain_read(q, &chain));
             let r = with_world(|w| self.pers.handle(w, q, &chain, &readable));
             if let Some(resp) = r {
-                if self.core.complete_in_order {
+                if self.core.complete_in_order || self.core.hold_only.map(|h| h != q).unwrap_or(false) {
                     with_world(|w| EngineCore::finish(w, q, &chain, &resp));
                 } else {
                     self.core.held.push((q, chain, resp));
@@ -135,7 +139,7 @@ impl Engine {
             }
             self.notified.remove(&q);
         }
-        if self.core.complete_in_order && !self.core.held.is_empty() {
+        if (self.core.complete_in_order || self.core.auto_ooo) && !self.core.held.is_empty() {
             self.complete_all();
             did = true;
         }
@@ -146,7 +150,7 @@ impl Engine {
 
 pub fn install(pers: Box<dyn Personality>, policy: Policy, seed: u64, indirect_ok: bool) {
     let eng = Engine {
-        core: EngineCore { rng: SmallRng::seed_from_u64(seed), indirect_ok, held: vec![], complete_in_order: true },
+        core: EngineCore { rng: SmallRng::seed_from_u64(seed), indirect_ok, held: vec![], complete_in_order: true, hold_only: None, auto_ooo: false },
         policy,
         notified: BTreeSet::new(),
         spins: 0,
